@@ -37,8 +37,13 @@ def _worlds(ck, n, *, toll_frac=0.0, start=1, exhaustive=False):
                 if p <= 64:
                     break
                 bounds[bounds.index(max(bounds))] = 2
-        out.append(ms.gen_world(rng, start + i, n_mem=n_mem, toll=(rng.random() < toll_frac),
-                                bounds=bounds, rich_costs=True, kind=kind))
+        w = ms.gen_world(rng, start + i, n_mem=n_mem, toll=(rng.random() < toll_frac),
+                         bounds=bounds, rich_costs=True, kind=kind)
+        if not exhaustive and i % 3 == 1:
+            w["ninst"] = rng.choice([2, 3])     # workload n_instances: totals scale
+        if i % 2 == 1:
+            w["allowpers"] = True               # persistent (untiled, per-instance) input holders may be constructed
+        out.append(w)
     return out
 
 
@@ -78,8 +83,8 @@ def compare(ck: Check, worlds, records, outs, label, prop="C05", toll_only=False
             if k not in exp and k[0] != "MAC" and g != 0:
                 bad.append((k, Fraction(0), g))
         mac = got.get(("MAC", "None", "compute"))
-        if mac is not None and mac != rec["macs"]:
-            bad.append((("MAC", "None", "compute"), Fraction(rec["macs"]), mac))
+        if mac is not None and mac != rec.get("mac_actions", rec["macs"]):
+            bad.append((("MAC", "None", "compute"), Fraction(rec.get("mac_actions", rec["macs"])), mac))
         e, l = Fraction(*rec["energy"]), Fraction(*rec["latency"])
         if bad:
             k, v, g = bad[0]
@@ -118,7 +123,7 @@ def run(ck: Check):
     small = _worlds(ck, 1, exhaustive=True)
     ln.coverage_run(ck, small, "MC_LoopNest_tiny.cfg", "cov")
     # exhaustive construction on small worlds
-    ex_worlds = _worlds(ck, 3 if not thorough else 6, exhaustive=True, start=10)
+    ex_worlds = _worlds(ck, 2 if not thorough else 6, exhaustive=True, start=10)
     res = ln.run_tlc(ck, ex_worlds, "MC_LoopNest_small.cfg" if not thorough else "MC_LoopNest_mid.cfg", "exh",
                      timeout=3000)
     if not res.ok:
@@ -127,9 +132,9 @@ def run(ck: Check):
     compare(ck, ex_worlds, res.records, outs, "exhaustive")
     ck.extra["exhaustive_mappings"] = len(res.records)
     # random walks on bigger worlds (3 levels, bounds up to 8, tolls)
-    sim_worlds = _worlds(ck, 10 if not thorough else 40, toll_frac=0.3, start=100)
+    sim_worlds = _worlds(ck, 8 if not thorough else 40, toll_frac=0.3, start=100)
     res = ln.run_tlc(ck, sim_worlds, "MC_LoopNest_sim.cfg", "sim",
-                     simulate="num=%d" % (900 if not thorough else 12000), depth=1500, seed=ck.seed + 1,
+                     simulate="num=%d" % (500 if not thorough else 12000), depth=1500, seed=ck.seed + 1,
                      workers=8, timeout=3000)
     if not res.ok:
         raise Machinery("MC_LoopNest simulation failed: %s\n%s" % (res.violated, res.tail))
